@@ -260,3 +260,13 @@ with [] as we: pass
 with [], () as wf, {} as wg: pass
 with [].x as wh, [][0] as wi: pass
 with [] + [] as wj: pass
+with {k: v for k in wk}: pass
+with {k: v for k in wk} as wl, {k for k in wk} as wm: pass
+with [k for k in wk], (k for k in wk) as wn: pass
+with {1: 2}, {1, 2} as wo, {**wp}, {*wq}: pass
+with (yield) as wr: pass
+with (wa := 1) as ws: pass
+with 1 as wt, 1.5 as wu, 'a' 'b' as wv, f'{wk}' as ww, ... as wx, None as wy, True as wz: pass
+with -wa, +wb, ~wc, not wd, wa ** wb, await_ as we: pass
+with wa if wb else wc, lambda: wd, wa or wb, wa and wb, wa < wb, wa | wb: pass
+with wa.b.c(), wa[0][1:2], wa(*wb, **wc).d: pass
